@@ -775,6 +775,11 @@ class SigmaRegularExpression(SigmaType):
     def add_flag(self, flag: SigmaRegularExpressionFlag) -> None:
         self.flags.add(flag)
 
+    def __repr__(self) -> str:
+        # the flag set is printed sorted: its iteration order depends on the hash seed
+        flags = ", ".join(sorted(str(flag) for flag in self.flags))
+        return f"{self.__class__.__name__}(regexp={self.regexp!r}, flags={{{flags}}})"
+
     def compile(self) -> None:
         """Verify if regular expression is valid by compiling it"""
         try:
